@@ -1006,8 +1006,9 @@ func (eval Evaluator) MulThenAdd(op0 *rlwe.Ciphertext, op1 rlwe.Operand, opOut *
 			return fmt.Errorf("cannot MulThenAdd: %w", err)
 		}
 
-		// opOut may hold a non-relinearized accumulator of higher degree than op0
-		opOut.Resize(utils.Max(op0.Degree(), opOut.Degree()), opOut.Level())
+		// opOut may hold a non-relinearized accumulator of higher degree than op0,
+		// and is brought down to the minimum level (only these limbs are updated)
+		opOut.Resize(utils.Max(op0.Degree(), opOut.Degree()), level)
 
 		// Gets the ring at the target level
 		ringQ := eval.GetParameters().RingQ().AtLevel(level)
